@@ -159,15 +159,44 @@ def run(ctx):
     cases = gen(ctx)
     impl, model, diffs = ctx.differential("adm", cases, exe, timeout=600)
     nt = search(ctx, cases, impl)
+    # the handlers are called concurrently in the application (WebSocket reader, returning transfer goroutines): free-running storms on the
+    # real SnapshotSender, the stub counts the transfers that run un-cancelled at the same time
+    import os as _os
+    storms = []
+    for k in range(16 if ctx.tier == "thorough" else 5):
+        storms.append({"max": ctx.rng.range(1, 3), "peers": ctx.rng.range(3, 7), "workers": ctx.rng.range(3, 9), "millis": 1500 if ctx.tier == "thorough" else 500})
+    spath = _os.path.join(ctx.workdir, "admstorm.cases")
+    open(spath, "w").write("\n".join("admstorm " + json.dumps(sp).encode().hex() for sp in storms) + "\n")
+    rcs = ctx.run_harness(exe, spath, _os.path.join(ctx.workdir, "admstorm.out"), timeout=300)
+    souts = open(_os.path.join(ctx.workdir, "admstorm.out")).read().splitlines()
+    ctx.oblige("harness:admstorm", rcs == 0 and len(souts) == len(storms), ctx.harness_stderr[-200:] if rcs else "")
+    storm_started = 0
+    for sp, so in zip(storms, souts):
+        try:
+            o = json.loads(so)
+        except Exception:
+            ctx.violation("C12:harness-output", f"storm output {so[:200]!r}", {"storm": sp})
+            continue
+        rep = {"storm": sp, "result": o}
+        storm_started += o.get("started", 0)
+        if o.get("peak_uncancelled_transfers", 0) > sp["max"]:
+            ctx.violation("C12:cap-exceeded-concurrently", f"{o['peak_uncancelled_transfers']} un-cancelled transfers ran at once with max-receivers={sp['max']} when the handlers were called concurrently: {o.get('first_over_limit', '')[:300]}", rep)
+        if o.get("same_peer_twice"):
+            ctx.violation("C12:peer-transferring-twice", f"receiver {o['same_peer_twice']} had two un-cancelled transfers running at once", rep)
+        if o.get("stalled") or o.get("panics"):
+            ctx.violation("C12:handlers-stall-or-panic", f"concurrent handler calls stalled or panicked: {o.get('panics')}", rep)
+        if o.get("final_queue") != o.get("final_status_queued") or o.get("final_active") != o.get("final_status_transferring"):
+            ctx.violation("C12:status-queue-mismatch", f"after the storm: queue {o.get('final_queue')} vs {o.get('final_status_queued')} QUEUED, slots {o.get('final_active')} vs {o.get('final_status_transferring')} TRANSFERRING", rep)
     ctx.coverage.update({
-        "evaluations": len(cases), "distinct_nontrivial": nt,
+        "storms": len(storms), "storm_transfers_started": storm_started,
+        "evaluations": len(cases) + len(storms), "distinct_nontrivial": nt,
         "rule": "event histories over {join, accept, leave, finish(run,ok), tick} : EXHAUSTIVE for 2 receivers up to length 3|4 and max-receivers in {1,2}; "
                 "stale-finish placements around leave/re-accept; seeded histories over 2-5 receivers up to 28 events; run on a REAL SnapshotSender with a stub transfer function. "
                 "non-trivial = histories in which at least one transfer was started",
         "samples": [cases[100], cases[len(cases) // 2], cases[-1]],
         "disagreements_model_vs_impl": len(diffs),
     })
-    ctx.assumptions += ["each handler is atomic (it runs under SnapshotSender.mu); the harness waits for runTransfer's return hook before the next event",
+    ctx.assumptions += ["each handler is atomic (it runs under SnapshotSender.mu); the differential waits for runTransfer's return hook before the next event; concurrent calls are sampled by free-running storms (3-8 goroutines), which can show a violation of the cap, not exclude one",
                         "TransferStart/TransferQueued messages are not compared (no WebSocket sink in this harness)"]
     return ctx.finish(LEVEL)
 
